@@ -82,10 +82,20 @@ type ProcResult struct {
 func fsFromSession(files []File, dirs []string, links [][2]string) *simos.FS {
 	fs := fsFromFiles(files, dirs)
 	for _, l := range links {
+		if l[1] == fifoMark {
+			// not a link at all: the name is a named pipe somebody is reading
+			fs.Fifos[l[0]] = true
+			fs.Files[l[0]] = []byte{}
+			continue
+		}
 		fs.Links[l[0]] = l[1]
 	}
 	return fs
 }
+
+// fifoMark in the target position of a session's link list says that the name
+// is a named pipe with a reader attached (`-o >(cmd)`, a FIFO made with mkfifo).
+const fifoMark = "|fifo"
 
 func fsFromFiles(files []File, dirs []string) *simos.FS {
 	fs := simos.NewFS()
@@ -271,6 +281,11 @@ func fsEqual(a, b *simos.FS) (bool, string) {
 			return false, fmt.Sprintf("symbolic link %q points to %q, expected %q", n, a.Links[n], b.Links[n])
 		}
 	}
+	for _, n := range sortedKeys(boolKeys(a.Fifos), boolKeys(b.Fifos)) {
+		if a.Fifos[n] != b.Fifos[n] {
+			return false, fmt.Sprintf("named pipe %q: is a pipe %v, expected %v (it was replaced by a regular file)", n, a.Fifos[n], b.Fifos[n])
+		}
+	}
 	for _, n := range names {
 		x, okx := a.Files[n]
 		y, oky := b.Files[n]
@@ -362,5 +377,15 @@ func sortedKeys(ms ...map[string]string) []string {
 		}
 	}
 	sort.Strings(out)
+	return out
+}
+
+func boolKeys(m map[string]bool) map[string]string {
+	out := map[string]string{}
+	for k, v := range m {
+		if v {
+			out[k] = "1"
+		}
+	}
 	return out
 }
